@@ -87,3 +87,19 @@ Definition last_queued (t : rtype) (q : list (rtype * list string)) : option (li
 (** nothing in flight: the queue is empty, no stream waits to be taken, the sender is on the newest stream *)
 Definition quiescent (s : qstate) : Prop :=
   q_queue s = [] /\ q_pending s = None /\ q_offer s = None /\ q_cur s = Some (q_live s).
+
+(** ---- monotone wire: what a per-stream monitor of the names listed may demand ---- *)
+(** name sets of the requests of type [t] sent on stream [j], oldest first *)
+Definition sent_on (t : rtype) (j : N) (log : list (N * (rtype * list string))) : list (list string) :=
+  map (fun x => snd (snd x)) (filter (fun x => N.eqb (fst x) j && rtype_eqb (fst (snd x)) t) log).
+(** ... leaving out the first one on every stream but the first stream: there it is the re-subscription, built from the
+    CURRENT state and therefore fresher than the older requests still queued behind it *)
+Definition after_resub (j : N) (l : list (list string)) : list (list string) := if N.eqb j 0 then l else tl l.
+(** queued name sets of type [t], oldest first *)
+Definition qof (t : rtype) (q : list (rtype * list string)) : list (list string) :=
+  map snd (filter (fun x => rtype_eqb (fst x) t) q).
+(** the interest sets only grow (lookups that miss, acknowledgements; no eviction) *)
+Definition grows (s : qstate) (e : qevent) : Prop :=
+  match e with QChange t ws => forall cur, tget t (q_sub s) = Some cur -> incl cur ws | _ => True end.
+Fixpoint grow_only (s : qstate) (h : list qevent) : Prop :=
+  match h with [] => True | e :: r => grows s e /\ grow_only (qstep s e) r end.
